@@ -162,7 +162,7 @@ pub fn run(tier: Tier, replay: Option<&str>) -> i32 {
     let (qs, notes) = c05::build_queries(tier);
     // untyped half: every C05 query (pairs of small types, neighbours, recursive env pairs)
     let step = tier.pick(2, 1);
-    let idx: Vec<usize> = (0..qs.len()).step_by(step).collect();
+    let idx: Vec<usize> = (0..qs.len()).filter(|i| i % step == 0 || qs[*i].family.starts_with("S5")).collect();
     let mut rep = ctx.par_range("untyped: accepted pairs x values of the subtype", idx.len() as u64, 64, || (), |_, i, rep| {
         let q = &qs[idx[i as usize]];
         check_pair(&q.env, &q.s, &q.t, q.family, tier, rep);
